@@ -20,11 +20,13 @@ from collections import deque
 
 from harness import tlc
 
-ALL_DEV = ["D1_late_pool", "D2_discount_pool", "D3_ctl_after_shutdown", "D4_recon_removed", "D5_up_loop"]
-DEV_OWNER = {"D1_late_pool": "C45", "D3_ctl_after_shutdown": "C45", "D2_discount_pool": "C25", "D4_recon_removed": "C25", "D5_up_loop": "C25"}
+ALL_DEV = ["D1_late_pool", "D2_discount_pool", "D3_ctl_after_shutdown", "D4_recon_removed", "D5_up_loop", "D6_unknown_down"]
+PENDING = {"D6_unknown_down": "findings/C25_unknown_host_down_without_reconnector.py"}    # genuine, not yet decided by the lead
+DEV_ENV = {"D6_unknown_down": "remote"}       # a deviation that can only show in configurations with this Env flag
+DEV_OWNER = {"D1_late_pool": "C45", "D3_ctl_after_shutdown": "C45", "D2_discount_pool": "C25", "D4_recon_removed": "C25", "D5_up_loop": "C25", "D6_unknown_down": "C25"}
 DEV_BREAKS = {"D1_late_pool": ["AllClosed", "Refused"], "D2_discount_pool": ["UpHasPools"],
               "D3_ctl_after_shutdown": ["AllClosed"], "D4_recon_removed": ["RemovedNotReconnected"],
-              "D5_up_loop": ["NotifiedOnce"]}
+              "D5_up_loop": ["NotifiedOnce"], "D6_unknown_down": ["OneReconnector"]}
 DEV_WHAT = {
     "D1_late_pool": "run_add_or_renew_pool executed after Session.shutdown() installs a new open pool in the shut-down "
                     "session: its connection is never closed and execute_async after shutdown is sent instead of refused",
@@ -35,14 +37,18 @@ DEV_WHAT = {
     "D5_up_loop": "with two sessions Cluster.on_up attaches _on_up_future_completed to the first pool future before the second is "
                   "in `futures`: when the first pool is ready before the loop goes on, the host is marked up and every listener "
                   "gets on_up, and again when the second pool is ready (two notifications for one down->up transition)",
+    "D6_unknown_down": "Cluster.on_down skips a host whose is_up is None (`not was_up`): a host added while the policy still "
+                       "answered IGNORED (a remote-datacenter host of DCAwareRoundRobinPolicy(used_hosts_per_remote_dc>0)) is never "
+                       "marked up although it gets pools; when its connection breaks it is marked down, keeps a non-ignored distance "
+                       "and gets no reconnector",
     "D4_recon_removed": "Cluster._start_reconnector starts a reconnector for a host that was already removed from the metadata "
                         "(on_down queued by a failed pool creation, or a failed on_up, finishing after on_remove)",
 }
 C25_INV = ["OneReconnector", "NoStrayReconnector", "RemovedNotReconnected", "NotifiedOnce", "UpNotified", "UpHasPools"]
-C45_INV = ["AllClosed", "Refused"]
+C45_INV = ["AllClosed", "Refused", "CtlStopsDialling"]
 ALL_INV = ["TypeOK"] + C25_INV + C45_INV
-WITNESSES = {"C25": ["Witness_Reconnected", "Witness_ReconRetry", "Witness_CancelledInFlight"], "C45": ["Witness_ShutdownWithWork", "Witness_ShutdownMidUp"]}
-C45_VARS = {"nopen", "ctl", "ctlPend", "flags", "req"}
+WITNESSES = {"C25": ["Witness_Reconnected", "Witness_ReconRetry", "Witness_CancelledInFlight"], "C45": ["Witness_ShutdownWithWork", "Witness_ShutdownMidUp", "Witness_CtlDialFailsAfterShutdown"]}
+C45_VARS = {"nopen", "ctl", "ctlPend", "flags", "req", "emC"}
 ACTIONS = ("Exec", "Fire", "ConnFailure", "StatusEvent", "TopologyEvent", "SetMode", "CtlFail", "ShutdownA", "ShutdownS",
            "ShutdownE", "Request")
 
@@ -56,16 +62,20 @@ def configs(pid, quick):
     if pid == "C25":
         if quick:
             # one subject host (it can fail, flap, refuse, be removed); NEW_NODE / on_add: recorded runs and thorough tier
-            return [("1host", C({2}, {2}, events=2, env={"fail", "status", "mode", "topo"}))]
+            return [("1host", C({2}, {2}, events=2, env={"fail", "status", "mode", "topo"})),
+                    ("remote", C({3}, {3}, events=2, env={"fail", "status", "mode", "remote"}))]
         # small graphs first: what they leave of the replay budget goes to the large ones
         return [("2sessions-fine", C({2}, {2}, sessions={1, 2}, events=1, env={"fail", "status", "mode"}, fine=True)),
+                ("remote", C({3}, {3}, events=3, env={"fail", "status", "mode", "remote"})),
                 ("ignored", C({2, 3}, {2, 3}, ignored={3}, events=2, env={"fail", "status", "mode"})),
                 ("2sessions", C({2}, {2}, sessions={1, 2}, events=2, env={"fail", "status", "mode"})),
                 ("1host", C({2}, {2}, events=3, env={"fail", "status", "mode", "auth"})),
                 ("topology", C({2, 3}, {2}, events=3, env={"topo", "mode", "fail"}))]
     if quick:
-        return [("ctl", C({2}, {2}, events=2, env={"fail", "mode", "ctl", "status"}))]
-    return [("ctl", C({2}, {2}, events=3, env={"fail", "mode", "ctl", "status"})),
+        return [("ctl", C({2}, {2}, events=2, env={"fail", "mode", "ctl", "status"})),
+                ("ctlscan", C({2}, {2}, events=2, env={"mode", "ctl", "ctlscan", "drop"}))]
+    return [("ctlscan", C({2, 3}, {2, 3}, events=2, env={"fail", "mode", "ctl", "ctlscan", "drop"})),
+            ("ctl", C({2}, {2}, events=3, env={"fail", "mode", "ctl", "status"})),
             ("ctl-topology", C({2, 3}, {2}, events=2, env={"ctl", "topo", "fail", "mode"})),
             ("2sessions", C({2}, {2}, sessions={1, 2}, events=2, env={"fail", "mode", "ctl"}))]
 
@@ -102,7 +112,7 @@ def probes():
             lambda p, bad: p["up"][2] == "T" and p["pools"][2][2] != "open" and not p["exec"]
             and not [t for t in p["sched"] if t[0] != "Recon"]),
         "D3_ctl_after_shutdown": (one, [
-            X("AddPool", s=1, h=2, kind="init"), A("CtlFail"), X("CtlReconnect"), A("ShutdownA"), X("CtlSet"),
+            X("AddPool", s=1, h=2, kind="init"), A("CtlFail"), X("CtlReconnect"), X("CtlDial", h=1), A("ShutdownA"), X("CtlSet"),
             A("ShutdownS"), A("ShutdownE")],
             lambda p, bad: bool(bad.get("connections_still_open"))),
         "D5_up_loop": (fine, [
@@ -111,6 +121,10 @@ def probes():
             F("Recon", h=2, kind="att"), X("Recon", h=2, kind="att"), X("ReconConn", h=2, kind="att"), X("AddPool", s=1, h=2, kind="up"),
             X("OnUpCont", h=2, f1=True), X("AddPool", s=2, h=2, kind="up")],
             lambda p, bad: p["_listener_log"].count(("up", 2)) >= 2),
+        "D6_unknown_down": (C({3}, {3}, events=9, env={"fail", "status", "mode", "remote"}), [
+            X("AddPool", s=1, h=3, kind="init"), A("ConnFailure", s=1, h=3), X("OnDown", h=3)],
+            lambda p, bad: p["up"][3] == "F" and 3 in p["lbpLive"] and p["recon"][3] == "none" and not p["exec"]
+            and not any(t[0] == "Recon" for t in p["sched"])),
         "D4_recon_removed": (one, [
             A("SetMode", h=2, x="refuse"), X("AddPool", s=1, h=2, kind="init"), A("TopologyEvent", h=2, x="REMOVED_NODE"),
             F("RemoveHost", h=2), X("RemoveHost", h=2), X("OnDown", h=2, f2=True)],
@@ -197,7 +211,7 @@ def owner_of(div, state_before):
     act = div["action"]
     name = act["name"] if isinstance(act, dict) else act
     kind = act["t"]["k"] if isinstance(act, dict) else ""
-    if name.startswith("Shutdown") or name in ("Request", "CtlFail") or kind in ("CtlReconnect", "CtlSet"):
+    if name.startswith("Shutdown") or name in ("Request", "CtlFail") or kind in ("CtlReconnect", "CtlSet", "CtlDial"):
         return "C45"
     if state_before is not None and state_before["phase"] >= 1:
         return "C45"
@@ -228,7 +242,16 @@ def run(ctx, pid):
     present, detail = run_probes(ctx)
     timing["probes_s"] = round(time.time() - t0, 2)
     ctx.note("deviation_probes", {d: ("PRESENT" if d in present else detail[d]) for d in ALL_DEV})
+    known_sigs = set(f.get("signature") for f in getattr(ctx, "_known", []))
     for dev in present:
+        if DEV_OWNER[dev] == pid and dev in PENDING and "deviation:%s" % dev not in known_sigs:
+            # exposed while extending the model in round 4; the lead decides between a fix in /repo and a known finding.
+            # Until the signature is listed (then it is reported like every other deviation) it is printed and recorded.
+            print("PENDING-FINDING: property=%s signature=deviation:%s repro=%s  %s" % (pid, dev, PENDING[dev], DEV_WHAT[dev]))
+            ctx.note("pending_findings", {dev: {"signature": "deviation:%s" % dev, "repro": PENDING[dev], "what": DEV_WHAT[dev],
+                                                "observed": detail[dev]}})
+            ctx.nontrivial(("deviation", dev))
+            continue
         if DEV_OWNER[dev] == pid:
             consts, acts, _ = probes()[dev]
             _viol(ctx, "%s: %s" % (dev, DEV_WHAT[dev]),
@@ -236,8 +259,12 @@ def run(ctx, pid):
                           signature="deviation:%s" % dev)
             ctx.nontrivial(("deviation", dev))
     fixed_built = set(ALL_DEV) - set(present)
-    broken = set(i for d in present for i in DEV_BREAKS[d])
-    built_inv = [i for i in ALL_INV if i not in broken]
+    def broken_in(env):
+        return set(i for d in present if d not in DEV_ENV or DEV_ENV[d] in env for i in DEV_BREAKS[d])
+
+    def built_inv_for(c):
+        return [i for i in ALL_INV if i not in broken_in(c["Env"])]
+    broken = broken_in({"remote"})
 
     # ---- 2./3. TLC jobs: as-built graphs first (the replay waits for them), then the rest; a few JVMs at a time
     cfgs = configs(pid, quick)
@@ -247,7 +274,7 @@ def run(ctx, pid):
     workers = 4 if quick else 5
     for name, c in cfgs:
         cb = dict(c, Fixed=fixed_built)
-        p = tlc.write_cfg(os.path.join(ctx.scratch, "built_%s.cfg" % name), constants=cb, invariants=built_inv, deadlock=False)
+        p = tlc.write_cfg(os.path.join(ctx.scratch, "built_%s.cfg" % name), constants=cb, invariants=built_inv_for(c), deadlock=False)
         jobs["built", name] = pool.submit(tlc.state_graph, "Hosts", p, ctx.scratch,
                                           coverage=(name == cfgs[0][0] and (quick or not present)), timeout=1500, workers=workers)
         time.sleep(0.02)                 # state_graph names its dump after the clock
@@ -272,9 +299,10 @@ def run(ctx, pid):
     bad3 = copy.deepcopy(traces[victim])
     bad3[4]["post"]["up"] = ["F" if x == "T" else "T" for x in bad3[4]["post"]["up"]]
     tcfg = tlc.write_cfg(os.path.join(ctx.scratch, "trace.cfg"), init="TraceInit", next="TraceNext", constants=tconsts,
-                         invariants=built_inv, constraints=["Progress"], postcondition="Done", deadlock=False)
+                         invariants=built_inv_for(tconsts), constraints=["Progress"], postcondition="Done", deadlock=False)
     jobs["trace"] = pool.submit(tlc.validate_traces, "Trace_Hosts", tcfg, traces + [bad1, bad2, bad3], ctx.scratch, timeout=2400)
-    wc = dict(C({2}, {2}, events=2, env={"fail", "mode", "status"}), Fixed=set(ALL_DEV))
+    wc = dict(C({2}, {2}, events=2, env={"fail", "mode", "status"} | ({"ctl", "ctlscan", "drop"} if pid == "C45" else set())),
+              Fixed=set(ALL_DEV))
     p = tlc.write_cfg(os.path.join(ctx.scratch, "witness.cfg"), constants=wc, invariants=WITNESSES[pid], deadlock=False)
     jobs["witness"] = pool.submit(tlc.run_tlc, "Hosts", p, ctx.scratch, timeout=900, workers=2, extra=["-continue"])
     if present and quick:
@@ -369,7 +397,7 @@ def run(ctx, pid):
     if not set(WITNESSES[pid]) <= hit:
         raise tlc.MachineryError("vacuity witnesses not reachable: %s\n%s" % (sorted(set(WITNESSES[pid]) - hit), wres.out[-1500:]))
     ctx.note("vacuity_witnesses_reached", WITNESSES[pid])
-    ctx.note("model", {"fixed_in_as_built_model": sorted(fixed_built), "invariants_checked_as_built": built_inv,
+    ctx.note("model", {"fixed_in_as_built_model": sorted(fixed_built), "invariants_checked_as_built": {n: built_inv_for(c) for n, c in cfgs},
                        "invariants_checked_intended": ALL_INV})
     timing["waiting_for_other_tlc_s"] = round(time.time() - t0, 2)
 
@@ -406,7 +434,7 @@ def run(ctx, pid):
         what = ev.get("during", ev)
         phase_before = t[prog[i] - 2]["post"].get("phase", 0) if prog[i] >= 2 else 0
         c45 = (what.get("e", what.get("name", "")).startswith("Shutdown") or what.get("e", what.get("name")) in ("Request", "CtlFail")
-               or (what.get("t") or {}).get("k") in ("CtlReconnect", "CtlSet") or phase_before >= 1)
+               or (what.get("t") or {}).get("k") in ("CtlReconnect", "CtlSet", "CtlDial") or phase_before >= 1)
         own = "C45" if c45 else "C25"
         if own == pid:
             _viol(ctx, "recorded execution rejected by the specification at event %d: %s" % (prog[i], {k: v for k, v in ev.items() if k != "post"}),
